@@ -152,8 +152,7 @@ func (x *Exec) call(fr *Frame, i *ssa.Call) {
 		}
 		x.oblige(fr, "pre", "dynamic-call-target", x.contractTags(fr), or(alts...), pc,
 			"function value is not one of the functions covered by contract "+label, "")
-		sig := types.NewSignatureType(nil, nil, nil, common.Signature().Params(), common.Signature().Results(), common.Signature().Variadic())
-		fr.vals[i] = x.applyContract(fr, c, label, sig, args, false)
+		fr.vals[i] = x.applyContract(fr, c, label, x.lastDynSig, args, false)
 		return
 	}
 	x.unsupportedf(fr, pc, "call through function value %s of type %s without a contract", common.Value.Name(), common.Value.Type())
@@ -529,7 +528,14 @@ func ifaceMethodKey(it types.Type, method string) string {
 func (x *Exec) applyIfaceContract(fr *Frame, c *Contract, label string, sig *types.Signature, args []Val) Val {
 	// same as applyContract, with the receiver bound to "self"
 	wrapped := types.NewSignatureType(nil, nil, nil, sig.Params(), sig.Results(), sig.Variadic())
-	return x.applyContractNamed(fr, c, label, wrapped, append([]string{"self"}, sigParamNames(sig, false)...), args)
+	names := []string{"self"}
+	for k, n := range sigParamNames(sig, false) {
+		if n == "" || n == "_" {
+			n = fmt.Sprintf("p%d", k)
+		}
+		names = append(names, n)
+	}
+	return x.applyContractNamed(fr, c, label, wrapped, names, args)
 }
 
 func (x *Exec) applyContractNamed(fr *Frame, c *Contract, label string, sig *types.Signature, names []string, args []Val) Val {
@@ -753,6 +759,7 @@ func (x *Exec) dynamicTargets(sig *types.Signature) (*Contract, []string, string
 		}
 		ids = append(ids, x.funcID(fn))
 		x.noteContractUse(fn, fc)
+		x.lastDynSig = fn.Signature
 	}
 	return c, ids, label
 }
